@@ -500,9 +500,19 @@ class Session:
         try:
             lm = ns[op["obj"]].layer_mapping
             layers = list(lm.all_layers)
-            return {"r": "ok", "layers": layers,
-                    "filters": {l: [[m.identifier, bool(m.identifier_is_regex)]
-                                    for m in lm.get_module_filters(l)] for l in layers}}
+            filters = {l: [[m.identifier, bool(m.identifier_is_regex)]
+                           for m in lm.get_module_filters(l)] for l in layers}
+            rev = {}
+            for l in layers:  # the other direction of the same definition: supplied name -> its layer
+                for ident, _ in filters[l]:
+                    try:
+                        rev[ident] = lm.get_layer_for_module_name(ident)
+                    except Exception:  # noqa: BLE001
+                        rev = None
+                        break
+                if rev is None:
+                    break
+            return {"r": "ok", "layers": layers, "filters": filters, "rev": rev}
         except Exception as e:  # noqa: BLE001
             return {"r": "exc", **_exc_info(e, self.scratch)}
 
